@@ -8,4 +8,4 @@ Extraction Language OCaml.
 Extraction "../ocaml/model.ml"
   raw_print raw_print_with build new_response from_data from_string empty_response
   choose_te chunked_threshold
-  parse_response parse_stream te_entries ref_choice oracle_c05.
+  parse_response parse_stream te_entries ref_choice oracle_c05 oracle_c19 oracle_c04.
